@@ -10,7 +10,7 @@ import (
 
 // ---- generator ------------------------------------------------------------------------------------------------------
 //
-// quick: the small exhaustive universe (every tree of ≤ 2 files from a pool of 10 × 3 context loaders × a fixed lookup
+// quick: the small exhaustive universe (every tree of ≤ 2 files from a pool of 12 × 4 context loaders / topologies × a fixed lookup
 // list and its reverse), ~60 random trees × 40 lookups, 300 smart-path ops; thorough: 2000 trees × 100 lookups, 6000 smart-path ops.
 
 var segPool = []string{"thing", "deep", "sub", "ta", "tb", "x1", "my_type", "ns"}
@@ -80,6 +80,11 @@ func randFile(r *rand.Rand, mods []string) genFile {
 	var segs []string
 	for i := 0; i < depth; i++ {
 		segs = append(segs, segPool[r.Intn(len(segPool))])
+	}
+	// name collisions across namespaces: a segment that is the name of a module — a global type named like a module, a
+	// module type whose last segment is another module's name, a namespace directory named like a module
+	if len(mods) > 0 && r.Intn(5) == 0 {
+		segs[r.Intn(len(segs))] = mods[r.Intn(len(mods))]
 	}
 	if root[0] == "env" && r.Intn(6) == 0 && len(mods) > 0 {
 		// a global file inside a directory named like a module: the same name as a module's file
@@ -217,7 +222,9 @@ func randTree(r *rand.Rand, nLookups int) spec {
 		}
 		s.files[i].body = gfs[i].body
 	}
-	switch k := r.Intn(20); {
+	switch k := r.Intn(24); {
+	case k >= 20:
+		s.via = "e"
 	case len(s.mods) == 0 || k < 5:
 		s.via = "g"
 	case k < 14:
@@ -244,8 +251,10 @@ func randTree(r *rand.Rand, nLookups int) spec {
 			names = append(names, g.body.name)
 		}
 	}
-	for _, m := range s.mods {
-		names = append(names, capSeg(m), capSeg(m)+"::"+capSeg(segPool[r.Intn(len(segPool))]))
+	for i, m := range s.mods {
+		// module names as type names: unqualified in every letter case, qualified, and below another module
+		names = append(names, capSeg(m), m, strings.ToUpper(m), capSeg(m)+"::"+capSeg(segPool[r.Intn(len(segPool))]),
+			capSeg(s.mods[(i+1)%len(s.mods)])+"::"+capSeg(m))
 	}
 	names = append(names, capSeg(segPool[r.Intn(len(segPool))]), "Integer")
 	for i := 0; i < nLookups; i++ {
@@ -343,11 +352,13 @@ var smallPool = []file{
 	{segs: []string{"modules", "other", "types", "thing.pp"}, body: body{kind: "bare"}},
 	{segs: []string{"modules", "mymod", "types", "ta.txt"}, body: body{kind: "alias", name: "Mymod::Ta"}},
 	{segs: []string{"modules", "mymod", "types", "wrong.pp"}, body: body{kind: "object", name: "Mymod::Thing"}},
+	{segs: []string{"env", "types", "Mymod.pp"}, body: body{kind: "alias", name: "Mymod"}},
+	{segs: []string{"modules", "other", "types", "mymod.pp"}, body: body{kind: "object", name: "Other::Mymod"}},
 }
 
 var smallLookups = []string{"Thing", "thing", "Mymod::Thing", "MYMOD::THING", "Mymod", "Mymod::Ta", "Mymod::Deep", "Mymod::Sub::Deep",
 	"Mymod::Sub", "Mymod::Sub::Deep", "Other::Thing", "Mymod::Nope", "Thing::Nope", "Mymod::Wrong", "Mymod::Other", "Mymod::Thing", "Mymod::Ta",
-	"Other", "Mymod::Init_typeset"}
+	"Other", "Mymod::Init_typeset", "mymod", "Other::Mymod", "MYMOD", "OTHER::MYMOD"}
 
 func gen(g *core.G) {
 	emit := func(s spec) { g.Emit(s.String()) }
@@ -359,7 +370,7 @@ func gen(g *core.G) {
 	}
 	ls = append(ls, lookup{op: "has", name: "Mymod::Thing"}, lookup{op: "discover"})
 	rev = append(rev, lookup{op: "has", name: "Mymod::Thing"}, lookup{op: "discover"})
-	for _, via := range []string{"g", "d", "m:mymod"} {
+	for _, via := range []string{"g", "d", "m:mymod", "e"} {
 		for _, lk := range [][]lookup{ls, rev} {
 			emit(spec{mods: []string{"mymod", "other"}, via: via, lookups: lk})
 			for i := range smallPool {
